@@ -121,7 +121,8 @@ Definition setup_env (c : cfg) (script : bytes) (stack : list bytes) (succ : byt
               e_ops := 0; e_pos := 0; e_ed := ed; e_err := if big then SCRIPT_ERR_SCRIPT_SIZE else SCRIPT_ERR_UNKNOWN_ERROR |} in
   let isp := negb big && (c_sigver c =? SV_BASE) && p2sh_shape (c_flags c) script in       (* only a legacy script can be pay-to-script-hash *)
   {| i_e := e; i_pc := script; i_hist := []; i_seq := 0;
-     i_done := (match script with [] => true | _ => false end) && (match succ with [] => true | _ => false end);
+     i_done := (match script with [] => true | _ => false end) && (match succ with [] => true | _ => false end)
+               && (match t with None => true | Some _ => false end);      (* a pending taproot commitment check keeps the session open *)
      i_p2sh := isp; i_p2shstack := if isp then stack else [];
      i_succ := succ; i_tce := t; i_operational := negb big |}.
 
